@@ -49,7 +49,7 @@ def plan(tier):
 
 
 def infinite_cases(tier):
-    """iDMRG / VUMPS configurations on the two chains with closed-form energy density."""
+    """iDMRG / VUMPS configurations on the chains with closed-form (or exact-ring) energy density."""
     out = []
     for model in ('tfi', 'xxz'):
         for ephc in (False, True):
@@ -65,6 +65,15 @@ def infinite_cases(tier):
                 if kind == 'spin_none':  # single-site VUMPS needs a charge-free random start of fixed bond dimension
                     for L in ((1, 2) if model == 'tfi' else (2,)):
                         out.append(dict(kind='inf', model=model, L=L, ephc=ephc, site=kind, engine='SingleSiteVUMPSEngine', mixer=None, chi=12))
+    for model in ('cxxz', 'cxy'):  # complex couplings; env_init='TM': environments from MPOTransferMatrix also for iDMRG
+        kind = Z.INF_SITES[model][0]
+        for ephc in ((False,) if tier == 'quick' else (False, True)):
+            base = dict(kind='inf', model=model, L=2, ephc=ephc, site=kind, chi=16)
+            out.append(dict(base, engine='TwoSiteVUMPSEngine', mixer=None))
+            out.append(dict(base, engine='TwoSiteDMRGEngine', mixer=True, env_init='TM'))
+            out.append(dict(base, engine='SingleSiteDMRGEngine', mixer=True))
+            if kind == 'spin_none':
+                out.append(dict(base, engine='SingleSiteVUMPSEngine', mixer=None, chi=8))
     return out
 
 
@@ -326,6 +335,7 @@ def run_inf_case(c):
     from tenpy.networks.mps import MPS
     M = Z.infinite_model(c['model'], c['L'], c['ephc'], c['site'])
     exact = Z.exact_density(c['model'])
+    slack, conv_tol = Z.INF_TOL[c['model']]
     sites = M.lat.mps_sites()
     vu = 'VUMPS' in c['engine']
     tag = '%s:%s:%s:ephc=%s' % (c['engine'], c['mixer'], c['model'], c['ephc'])
@@ -334,11 +344,12 @@ def run_inf_case(c):
             np.random.seed(4321 + c['seed'])  # from_desired_bond_dimension draws from the global numpy generator
             psi = MPS.from_desired_bond_dimension(sites, c['chi'], bc='infinite')
         else:
-            psi = MPS.from_product_state(sites, [0, 1][:c['L']] if c['model'] == 'xxz' else [0] * c['L'], 'infinite', permute=False)
+            psi = MPS.from_product_state(sites, [0] * c['L'] if c['model'] == 'tfi' else [0, 1][:c['L']], 'infinite', permute=False)
         opt = dict(mixer=c['mixer'], trunc_params=dict(chi_max=c['chi'], svd_min=1e-10), max_sweeps=60 if vu else 200, max_trunc_err=None)
         if vu:
             opt.update(max_E_err=1e-12, max_S_err=1e-8)
-        eng = getattr(vumps if vu else dmrg, c['engine'])(psi, M, opt)
+        kwargs = {'resume_data': {'init_env_data': {'force_init_method': c['env_init']}}} if 'env_init' in c else {}
+        eng = getattr(vumps if vu else dmrg, c['engine'])(psi, M, opt, **kwargs)
         E, psi = eng.run()
         nt = float(np.max(np.abs(psi.norm_test())))
         E_mpo = M.H_MPO.expectation_value(psi)
@@ -346,18 +357,21 @@ def run_inf_case(c):
     except Exception as e:  # noqa: BLE001
         return [exception_finding(e, c['engine'])], dict(outcome='exception')
     bad = []
-    if nt > TOL:
-        bad.append(('infinite:canonical-form:' + tag, 'norm_test=%.3g' % nt))
+    if nt > TOL or abs(psi.norm - 1) > 1e-10:
+        bad.append(('infinite:canonical-form:' + tag, 'norm_test=%.3g, psi.norm=%r' % (nt, psi.norm)))
         return bad, dict(outcome='not-canonical')
+    if abs(np.imag(E)) > TOL or abs(np.imag(E_mpo)) > TOL:
+        bad.append(('infinite:energy-not-real:' + tag, 'hermitian H, but run() returned E=%r, H_MPO.expectation_value=%r' % (E, E_mpo)))
+    E, E_mpo = float(np.real(E)), float(np.real(E_mpo))
     E_trunc = 0.0 if vu else last_E_trunc(eng, 4 * c['L'])
     stopped_converged = eng.sweeps < opt['max_sweeps']  # (the iDMRG energy density is an estimate that is exact only at convergence)
     if stopped_converged and abs(E - E_own) > 1e-6 + E_trunc:
         bad.append(('infinite:energy-mismatch:' + tag, 'E=%.10f from run(), own bond-energy evaluation of the returned state %.10f' % (E, E_own)))
     if abs(E_mpo - E_own) > TOL:
         bad.append(('infinite:mpo-expectation:' + tag, 'H_MPO.expectation_value=%.10f, own evaluation %.10f' % (E_mpo, E_own)))
-    if E_own < exact - 1e-9:
+    if E_own < exact - slack:
         bad.append(('infinite:below-ground-state:' + tag, 'energy density %.12f < exact %.12f' % (E_own, exact)))
-    conv = E_own - exact <= 1e-6
+    conv = E_own - exact <= conv_tol
     if not conv and (vu or (c['engine'].startswith('Two') and c['mixer'] is not None)):
         bad.append(('infinite:not-converged:' + tag, 'energy density %.10f, exact %.10f, chi=%s after %d sweeps' % (E_own, exact, psi.chi, eng.sweeps)))
     return bad, dict(outcome='converged' if conv else 'above')
